@@ -37,6 +37,8 @@ def _deps(op):
     """symbols / class names an op refers to, and what it creates"""
     if op[0] == "decl_class":
         need = {("c", x.split("^")[0][2:]) for x in op[2].split(";") if x.startswith("c:")}
+        if op[4].startswith("sub:"):
+            need.add(("c", op[4].split(":")[1]))       # the parent class of a subclass
         return need, ("c", op[1])
     if op[0] == "new_unit":
         need = {("c", op[1])}
